@@ -23,6 +23,7 @@ def parseFault (m : String) : Option Fault :=
   | ["chunkpartial"] => some .chunkPartial
   | ["upgrade"] => some .upgrade
   | ["early", st, n] => do pure (.early (← st.toNat?) (← n.toNat?))
+  | ["trailer"] => some .trailer
   | _ => none
 
 def lowerU (b : Bytes) : Bytes := b.map fun c => if c = 45 then 95 else Rewrite.lower c
@@ -63,6 +64,7 @@ def stepLine (s : St) (line : String) : St × String :=
         let respX := if !o.claimed then [] else s.logResp.filter (· ≠ asciiB "Content-Type") |>.map fun k =>
           let v : Bytes :=
             if k = asciiB "X-Resp" && served && (match f with | .ok _ _ => true | .early _ _ => true | _ => false) then asciiB "v1,v2"
+            else if k = asciiB "X-Resp" && served && f = .trailer then asciiB "t1"   -- sent after the body, as announced
             else if k = asciiB "X-Resp" && (match o.client with | .upgraded => true | _ => false) then asciiB "u1"   -- the 101's own headers
             else []
           s!"resp_{showB (lowerU k)}={encB v}"
